@@ -3,7 +3,8 @@
 (* Judges Open/Close attempts made by several OS processes (and several    *)
 (* goroutines of one process) on one directory (format L).  Events:        *)
 (*   reset  {corrupt}                                                      *)
-(*   lk     {o, act: open|close|closebegin, res, same}   one attempt that  *)
+(*   lk     {o, act: open|close|closebegin|work, res, same}  one attempt   *)
+(*          that completed (work: the holder wrote some keys and merged)   *)
 (*          completed (closebegin: the Close of o has started and is parked *)
 (*          at the close of its first data file; it ends with its close)   *)
 (*          before the next one started; `same`: the directory's           *)
@@ -28,8 +29,8 @@ TReset == Is("reset") /\ l' = l + 1 /\ holder' = 0 /\ corrupt' = E.corrupt
 TSet   == Is("setdir") /\ l' = l + 1 /\ corrupt' = E.corrupt /\ UNCHANGED holder
 IsErr(r) == r \notin {"ok", "inuse", "panic", "stuck"}
 TLk == /\ Is("lk") /\ l' = l + 1 /\ UNCHANGED corrupt
-       /\ IF E.act = "closebegin"       \* the holder's Close is under way (parked): the database is still open
-          THEN /\ Must("lock", E.o = holder) /\ UNCHANGED holder
+       /\ IF E.act \in {"closebegin", "work"}   \* the holder's Close is under way (parked) / the holder wrote and merged:
+          THEN /\ Must("lock", E.o = holder /\ (E.act = "work" => E.res = "ok")) /\ UNCHANGED holder   \* the database is still open
           ELSE IF E.act = "close"
           THEN /\ Must("lock", E.o = holder /\ E.res = "ok") /\ holder' = 0
           ELSE IF holder # 0
